@@ -190,12 +190,16 @@ class System:
         cls = "nanpeak-accepted" if nanpeak else "plain"
         ctx.outcome((vw.tolist(), vp.tolist(), [_f(p[0]) for p in peaks]))
         fresh = self._fresh(h, vw, vp)
+        zero_in_accepted = any(v == 0.0 for r in rows for v in r)
         for d in DISTS:
             exp = {}
-            exp["mean_curve"] = RS.mean_curve(rows, d)
-            exp["std_curve"] = RS.std_curve(rows, d)
-            for n in (-1, 1, 2):
-                exp[f"nth_std_curve({n})"] = RS.nth_std_curve(n, rows, d)
+            if d != "normal" and zero_in_accepted:
+                ctx.count("lognormal_curves_skipped_zero_amplitude_accepted")   # log(0): outside the estimator's domain
+            else:
+                exp["mean_curve"] = RS.mean_curve(rows, d)
+                exp["std_curve"] = RS.std_curve(rows, d)
+                for n in (-1, 1, 2):
+                    exp[f"nth_std_curve({n})"] = RS.nth_std_curve(n, rows, d)
             if len(acc_pk) >= 2:
                 fs = [p[0] for p in acc_pk]
                 am = [p[1] for p in acc_pk]
@@ -237,7 +241,8 @@ class System:
                                                   f"accepted windows alone")
             # mean-curve peak: peak of the implementation's own mean curve in the current range
             mc = _call(o, "mean_curve", (), d)
-            if not (isinstance(mc, tuple) and mc and mc[0] == "raised"):
+            if not (isinstance(mc, tuple) and mc and mc[0] == "raised") and \
+                    not (d != "normal" and zero_in_accepted):
                 c = HvsrCurve(self.freq, list(mc))
                 c.update_peaks_bounded(search_range_in_hz=h.rng, find_peaks_kwargs=h.kw)
                 got = _call(o, "mean_curve_peak", (), d)
@@ -365,12 +370,16 @@ def roots(tier, seed):
         out += [dict(grid="geo", F=7, shapes=s, depth=2) for s in sets[:6]]
         # histories that look at the statistics between operations, with manual re-acceptance
         out += [dict(grid="lin", F=7, shapes=s, depth=2, touch=True, reaccept=True) for s in (sets[0], sets[10])]
+        # a window with exactly zero amplitude at some frequencies: once rejected it must not matter
+        out.append(dict(grid="lin", F=7, shapes=["p3", "dead", "p4", "p2"], depth=2, reaccept=True))
         return out
     out = []
     for r in A.curve_set_roots([3], 7, A.REDUCED_SHAPES + ["steep_up"], grids=("lin",)):
         out.append(dict(depth=3, **r))
     for r in A.curve_set_roots([4], 7, A.REDUCED_SHAPES, grids=("lin",)):
         out.append(dict(depth=2, **r))
+    out.append(dict(grid="lin", F=7, shapes=["p3", "dead", "p4", "p2"], depth=2, reaccept=True))
+    out.append(dict(grid="lin", F=7, shapes=["dead", "p3", "p4"], depth=3, reaccept=True))
     for s in (["p2", "p4", "twopk", "p3"], ["p2", "p3", "p5"], ["p1", "q3", "tie"], ["p2", "steep_up", "p2"]):
         out.append(dict(grid="lin", F=7, shapes=s, depth=3 if len(s) == 3 else 2, touch=True, reaccept=True))
     for s in (["p1", "p2", "p3", "p4", "p5"], ["p2", "twopk", "up", "p4", "q3"],
